@@ -1,1 +1,2 @@
+import Cpppo.Props.C16
 import Cpppo.Props.C19
